@@ -26,9 +26,11 @@ Setup3 == [BaseSetup EXCEPT !.acct = [@ EXCEPT !["g1"] = CV(Fund(20), 0, 4)], !.
 \* two genesis pools of one owner whose list order is not the order of their lock ends (the earlier pool matures later)
 GenPoolLong == [name |-> "gq", vt |-> "v0", lockStart |-> 0, lockEnd |-> 4, init |-> 10, sent |-> 0, withdrawn |-> 0, genesis |-> TRUE]
 Setup4 == [BaseSetup EXCEPT !.pools = [@ EXCEPT !["o1"] = <<GenPoolLong, GenPool>>]] @@ [id |-> 4]
-TraceSetups == {Setup1, Setup2, Setup3, Setup4}
+\* r2 is an SDK delayed vesting account with 12 locked until t = 3: split / move out of it, sends and creations onto it must be refused
+Setup5 == [BaseSetup EXCEPT !.acct = [@ EXCEPT !["r2"] = Delayed(C1(12), 3)], !.bal = [@ EXCEPT !["r2"] = C1(12)]] @@ [id |-> 5]
+TraceSetups == {Setup1, Setup2, Setup3, Setup4, Setup5}
 MCSetups == IF Cardinality(Denoms) > 1 THEN {Setup2, Setup3}
-            ELSE IF TrySet = "pools" THEN {Setup1, Setup4} ELSE {Setup1, Setup2}
+            ELSE IF TrySet = "pools" THEN {Setup1, Setup4} ELSE {Setup1, Setup2, Setup5}
 
 Half == P \div 2
 MCVTypes == { [name |-> "v0", lockup |-> 0, vesting |-> 4, free |-> 0],
@@ -69,7 +71,9 @@ SplitTries ==
   { SP("r1", "r2", S(a), U) : a \in {"one", "half", "all"} } \cup
   { SP("o1", "r2", S("one"), U), SP("g1", "o2", S("one"), U), SP("g1", "mod", S("one"), U), SP("g1", "g1", S("one"), U), SP("r2", "r1", S("one"), U),
     MV("g1", "r2"), MV("r1", "r2"), MV("o1", "r2"), MV("g1", "o2"), MV("g1", "mod"),
-    MD("g1", "r2", U), MD("g1", "r2", {}), MD("r1", "r2", U), MD("o1", "r2", U) }
+    MD("g1", "r2", U), MD("g1", "r2", {}), MD("r1", "r2", U), MD("o1", "r2", U),
+    \* out of r2 (a delayed vesting account in one set-up, absent in the others)
+    SP("r2", "r1", S("all"), U), MV("r2", "r1"), MD("r2", "r1", U) }
 \* (the denomination update is tried with the current denomination too: accept / reject then depends only on the signer and on whether pools exist)
 OtherTries == { DG("g1", S("half")), DG("r1", S("all")), DG("r1", S("half")), DG("g1", L(3)),
                 UD("gov", "uc4e"), UD("user", "uc4e"), UD("gov", ""), UD("", "uc4e"), UD("gov", "stake"), UD("user", "stake"), WD("o1") }
